@@ -6,7 +6,7 @@ from props.C03 import edge_points
 
 ID = "C19"
 LEVEL = "proof"
-MODULES = ["H3Proofs.Props.C19", "H3Proofs.Props.C19Shape", "H3Proofs.Props.C19Pent", "H3Proofs.Props.C04Gen"]
+MODULES = ["H3Proofs.Props.C19", "H3Proofs.Props.C19Shape", "H3Proofs.Props.C19Pent", "H3Proofs.Props.C04Gen", "H3Proofs.Props.C10Gen"]
 THEOREMS = "auto"
 ASSUMPTIONS = ["all-integer model (h3ToFaceIjk, substrate vertices, overage adjustment, output set) tied by exact "
                "correspondence; the geometric reading (faces the interior intersects) is evaluated with an oracle "
